@@ -231,9 +231,6 @@ _ASSUME.extend([
     'sort_values keeps the label set; Series / scalar keeps the labels; '
     'pd.DataFrame({"geo": list, "control": 1, "treatment": 1, "exclude": 1}) '
     'is an eligibility table with one all-ones row per list entry',
-    'GeoEligibility.__init__ (ASSUMED, validation not verified: bounded '
-    'monitor C16): either raises ValueError or stores the given table '
-    'unchanged as .data',
 ])
 
 
@@ -387,25 +384,6 @@ def _init_table(s):
       new.cols[k] == geos for k in ('control', 'treatment', 'exclude')])
   return z3.If(ge0.none, default, given)
 
-
-def _eff_rows(t):
-  """Rows of an eligibility table value: those selected by .loc[list]."""
-  return t.labels.elems if t.labels is not None else t.rows
-
-
-ge.spec.contract(
-    'GeoEligibility.__init__', params={'df': pl.TEligTable()},
-    modifies=['self.*'], props=('C15', 'C16'),
-    assumed='ASSUMED (validation of the table is not verified; acceptance '
-            'predicate covered by the exhaustive bounded monitor of C16): '
-            'raises ValueError or stores the given table as .data',
-    raises_only=['ValueError'],
-    ensures=[('the table is stored unchanged (for a .loc[list] selection: '
-              'the selected rows)', lambda s: z3.And(
-                  unwrap(s.self.data).rows == _eff_rows(unwrap(s.df)),
-                  *[unwrap(s.self.data).cols[k] == z3.SetIntersect(
-                      unwrap(s.df).cols[k], _eff_rows(unwrap(s.df)))
-                    for k in ('control', 'treatment', 'exclude')]))])
 
 spec.contract(
     'TBRMMData.__init__',
